@@ -9,6 +9,7 @@ import numpy as np
 from rv import core, fcsgen, layouts
 from rv.refmodels import textseg
 
+ANCHORS = ['read_fcs_text_segment', 'FCSFile.__init__']      # functions the property is anchored in: never entered => inconclusive
 LEVEL = 'exploration'
 LEVEL_TEXT = 'Exhaustive comparison with an independent left-to-right tokenizer over all strings on {delimiter,a,b} up to length 10 (quick) / 14 (thorough), primary and supplemental, random dictionaries x printable delimiters, damaged encodings, files with supplemental TEXT and ANALYSIS, and an in-situ monitor on every segment any load parses. Exhaustive over the bounded string space.'
 TECHNIQUE = 'exhaustive differential monitoring against an independent reference tokenizer + in-situ segment monitor'
